@@ -76,12 +76,14 @@ func runC09(t *testing.T, e *worlds.Env, tier string) (bool, any) {
 		sample.Faults = faults
 		useEcho = tp.Prob(1, 4, "echo")
 		var h layer4.NextHandler
+		var urec *worlds.UDPRec
 		if useEcho {
 			h = &l4echo.Handler{}
 			sample.Handler = "echo"
 		} else {
 			u := &worlds.UDPRec{E: e, Reply: tp.Prob(2, 3, "reply"), MaxReads: tp.Pick("max-reads", 0, 1, 2, 5, 12), BufSize: tp.Pick("bufsize", 9216, 9216, 100, 2048), Log: &assocs}
 			h = u
+			urec = u
 			sample.Handler = fmt.Sprintf("udprec(max=%d,reply=%v,buf=%d)", u.MaxReads, u.Reply, u.BufSize)
 			slowNum := 1
 			if many {
@@ -176,6 +178,12 @@ func runC09(t *testing.T, e *worlds.Env, tier string) (bool, any) {
 			}
 			ulk()
 			return all && e.S.Elapsed() > last+40*time.Second+slowFor*time.Duration(slowDgrams+1)
+		}
+		if urec != nil && urec.MaxReads > 0 && !hasMatcher && tp.Prob(1, 3, "close-then-read") {
+			// (not behind a matcher: the rest of what layer4 prefetched for matching is still readable there)
+			// the handler closes the association itself and keeps reading (an aborted copy loop)
+			urec.CloseThenRead = 1 + tp.Choose(4, "ctr-n")
+			sample.Handler += fmt.Sprintf(" close-then-read(%d)", urec.CloseThenRead)
 		}
 		if tp.Prob(1, 5, "read-timeouts") {
 			uw.Sock.InjectReadTimeouts(1 + tp.Choose(3, "rt-n"))
@@ -334,6 +342,33 @@ func runC09(t *testing.T, e *worlds.Env, tier string) (bool, any) {
 						e.S.Fail("C09/cross-talk", "udprec", "association %d of client %s (%s) read bytes of client %s", k+1, c, a.G, who)
 					} else {
 						e.S.Fail("C09/order", "udprec", "association %d of client %s (%s) read %d bytes that are not a contiguous in-order run of that client's arrivals starting at a datagram boundary (first bytes % x)",
+							k+1, c, a.G, len(r), head(r, 12))
+					}
+					return
+				}
+				runs = append(runs, run{a, k, r, first})
+			}
+			// reads made after the handler closed the association itself: end-of-stream, or
+			// whole datagrams of this client that the loop had queued meanwhile - never the
+			// rest of a released buffer, never somebody else's bytes
+			for k, a := range as {
+				r := bytes.Join(a.PostClose, nil)
+				if len(r) == 0 {
+					continue
+				}
+				first := -1
+				for i := 0; i < len(ds); i++ {
+					if len(ds[i].Data) > 0 && isPrefixOfConcat(r, ds[i:]) {
+						first = i
+						break
+					}
+				}
+				if first < 0 {
+					who := owner(head(r, 12))
+					if who != "" && who != c {
+						e.S.Fail("C09/cross-talk", "udprec", "association %d of client %s (%s), reading after its own Close, got bytes of client %s", k+1, c, a.G, who)
+					} else {
+						e.S.Fail("C09/read-after-close", "udprec", "association %d of client %s (%s) closed its connection and then read %d bytes that are not whole in-order datagrams of that client (first bytes % x): the rest of a released buffer",
 							k+1, c, a.G, len(r), head(r, 12))
 					}
 					return
